@@ -327,6 +327,15 @@ UPGRADER:
 		case stateStatusBefore:
 			switch c {
 			case ' ':
+			case '\r':
+				// empty reason-phrase.
+				p.Processor.OnStatus(p, p.statusCode, "")
+				p.statusCode = 0
+				p.nextState(stateStatusLF)
+				continue
+			case '\n':
+				// a bare LF does not end the status line.
+				return ErrCRExpected
 			default:
 				if isAlpha(c) {
 					start = i
